@@ -1668,52 +1668,7 @@ func c09CueConstraintsThroughReferences(ctx *Ctx, r *Report) {
 func c09FifthHunt(ctx *Ctx, r *Report) {
 	n := 0
 	// (a)
-	if fn := ctx.LookupMethod("internal/jennies/python", "Builder", "generateBuilder"); fn == nil {
-		r.Undecided("anchor lost: python.Builder.generateBuilder")
-	} else if fd, p := ctx.DeclOf(fn); fd != nil {
-		info := p.TypesInfo
-		// maps filled from the packages of the schemas
-		packageSets := map[types.Object]bool{}
-		ast.Inspect(fd.Body, func(m ast.Node) bool {
-			rs, ok := m.(*ast.RangeStmt)
-			if !ok || !strings.HasSuffix(exprString(rs.X), ".Schemas") {
-				return true
-			}
-			ast.Inspect(rs.Body, func(k ast.Node) bool {
-				as, ok := k.(*ast.AssignStmt)
-				if !ok || len(as.Lhs) != 1 {
-					return true
-				}
-				if ix, ok := ast.Unparen(as.Lhs[0]).(*ast.IndexExpr); ok && strings.HasSuffix(exprString(ix.Index), ".Package") {
-					if id, ok := ast.Unparen(ix.X).(*ast.Ident); ok {
-						packageSets[objOf(info, id)] = true
-					}
-				}
-				return true
-			})
-			return true
-		})
-		knows := false
-		ast.Inspect(fd.Body, func(m ast.Node) bool {
-			kv, ok := m.(*ast.KeyValueExpr)
-			if !ok {
-				return true
-			}
-			if bl, ok := kv.Key.(*ast.BasicLit); !ok || bl.Value != `"formatFunctionName"` {
-				return true
-			}
-			ast.Inspect(kv.Value, func(k ast.Node) bool {
-				if id, ok := k.(*ast.Ident); ok && packageSets[objOf(info, id)] {
-					knows = true
-				}
-				return true
-			})
-			return true
-		})
-		n++
-		r.Check(knows, "kinds/python-method-names-spare-modules", "python.Builder.generateBuilder formats method names", fd.Pos(), "with a function that knows the packages of the schemas, imported as modules under their name",
-			"the builder templates name methods and factories with the global formatFunctionName, which knows nothing of the modules the file imports (`from ..models import demo`): `Obj: {demo?: string, kind?: Kind}` in package demo gives `def demo(self, …)` then `def kind(self, kind: demo.Kind)` — AttributeError: 'function' object has no attribute 'Kind', the builders module can not be imported")
-	}
+	n += c09PythonMethodNamesSpareModules(ctx, r)
 	// (b)
 	if fp := ctx.Pkg("internal/jsonschema"); fp == nil {
 		r.Undecided("anchor lost: internal/jsonschema")
@@ -1839,4 +1794,126 @@ func c09OpenAPIIntegerConversions(ctx *Ctx, r *Report) int {
 		n = 1
 	}
 	return n
+}
+
+// c09PythonMethodNamesSpareModules: the modules a Python builders file imports are known under the name of their
+// package; a method or a factory of that name takes the place of the module in every annotation written after it.
+// (1) the jenny names methods with a function that consults a set of module names; (2) that set is filled, in the
+// function that renders the file, from what the builders of that file refer to (a function reading ReferredPkg) —
+// (3) and not from the packages of the run: an unrelated input called `title` would rename the option `title` of
+// every other package (C07).
+func c09PythonMethodNamesSpareModules(ctx *Ctx, r *Report) int {
+	fn := ctx.LookupMethod("internal/jennies/python", "Builder", "generateBuilder")
+	gen := ctx.LookupMethod("internal/jennies/python", "Builder", "Generate")
+	fd, p := ctx.DeclOf(fn)
+	gfd, _ := ctx.DeclOf(gen)
+	if fd == nil || gfd == nil {
+		r.Undecided("anchor lost: python.Builder.generateBuilder / Generate")
+		return 0
+	}
+	info := p.TypesInfo
+	// (1) the map the formatter consults
+	var consulted types.Object
+	ast.Inspect(fd.Body, func(m ast.Node) bool {
+		kv, ok := m.(*ast.KeyValueExpr)
+		if !ok {
+			return true
+		}
+		if bl, ok := kv.Key.(*ast.BasicLit); !ok || bl.Value != `"formatFunctionName"` {
+			return true
+		}
+		ast.Inspect(kv.Value, func(k ast.Node) bool {
+			if ix, ok := k.(*ast.IndexExpr); ok {
+				if id, ok := ast.Unparen(ix.X).(*ast.Ident); ok {
+					if o := objOf(info, id); o != nil {
+						if _, isMap := o.Type().Underlying().(*types.Map); isMap {
+							consulted = o
+						}
+					}
+				}
+			}
+			return true
+		})
+		return true
+	})
+	r.Check(consulted != nil, "kinds/python-method-names-spare-modules", "python.Builder.generateBuilder formats method names", fd.Pos(), "with a function that consults a set of module names",
+		"the builder templates name methods and factories with the global formatFunctionName, which knows nothing of the modules the file imports (`from ..models import demo`): `Obj: {demo?: string, kind?: Kind}` in package demo gives `def demo(self, …)` then `def kind(self, kind: demo.Kind)` — AttributeError: 'function' object has no attribute 'Kind', the builders module can not be imported")
+	if consulted == nil {
+		return 1
+	}
+	// the variable of Generate (or of generateBuilder itself) that holds the set
+	holder, holderBody := consulted, fd.Body
+	sig := fn.Type().(*types.Signature)
+	for i := 0; i < sig.Params().Len(); i++ {
+		if sig.Params().At(i) != consulted {
+			continue
+		}
+		ast.Inspect(gfd.Body, func(m ast.Node) bool {
+			c, ok := m.(*ast.CallExpr)
+			if !ok || callee(info, c) != fn || i >= len(c.Args) {
+				return true
+			}
+			if id, ok := ast.Unparen(c.Args[i]).(*ast.Ident); ok {
+				holder, holderBody = objOf(info, id), gfd.Body
+			}
+			return true
+		})
+	}
+	// (2) filled from what the builders refer to, (3) not from the packages of the run
+	fromReferences, fromRun := false, ""
+	readsReferredPkg := func(body ast.Node) bool {
+		found := false
+		ast.Inspect(body, func(k ast.Node) bool {
+			if sel, ok := k.(*ast.SelectorExpr); ok && sel.Sel.Name == "ReferredPkg" {
+				found = true
+			}
+			return true
+		})
+		return found
+	}
+	ast.Inspect(holderBody, func(m ast.Node) bool {
+		switch x := m.(type) {
+		case *ast.CallExpr:
+			// handed to a function of the jenny that reads ReferredPkg
+			f := callee(info, x)
+			if f == nil || f.Pkg() != p.Types || f == fn {
+				return true
+			}
+			for _, a := range x.Args {
+				if id, ok := ast.Unparen(a).(*ast.Ident); ok && objOf(info, id) == holder {
+					if hfd, _ := ctx.DeclOf(f); hfd != nil && hfd.Body != nil && readsReferredPkg(hfd.Body) {
+						fromReferences = true
+					}
+				}
+			}
+		case *ast.RangeStmt:
+			if !strings.HasSuffix(exprString(x.X), ".Schemas") {
+				return true
+			}
+			ast.Inspect(x.Body, func(k ast.Node) bool {
+				if as, ok := k.(*ast.AssignStmt); ok && len(as.Lhs) == 1 {
+					if ix, ok := ast.Unparen(as.Lhs[0]).(*ast.IndexExpr); ok {
+						if id, ok := ast.Unparen(ix.X).(*ast.Ident); ok && objOf(info, id) == holder {
+							fromRun = ctx.Pos(as.Pos())
+						}
+					}
+				}
+				return true
+			})
+		case *ast.AssignStmt:
+			if len(x.Lhs) == 1 {
+				if ix, ok := ast.Unparen(x.Lhs[0]).(*ast.IndexExpr); ok {
+					if id, ok := ast.Unparen(ix.X).(*ast.Ident); ok && objOf(info, id) == holder && readsReferredPkg(ix.Index) {
+						fromReferences = true
+					}
+				}
+			}
+		}
+		return true
+	})
+	r.Check(fromReferences, "kinds/python-method-names-spare-modules", "python.Builder fills the set of module names", gfd.Pos(), "from the packages the builders of the file refer to",
+		"the set of names the methods have to spare is not filled from what the builders of the file refer to: a method called like a module the file imports (`def common(…)` before `common.Deep`) shadows it")
+	r.Check(fromRun == "", "kinds/python-method-names-spare-modules", "python.Builder spares the names of its own imports only", gfd.Pos(), "the set is not filled from the packages of the run",
+		"the set of names the methods have to spare is filled from context.Schemas ("+fromRun+"): an unrelated input of package `title` renames the option `title` of every other package to `title_val` — Dashboard().title('x') raises AttributeError, while adding an input that nothing references must change no file of the other packages")
+	return 3
 }
